@@ -6,7 +6,7 @@ import z3
 from .values import (Sym, Obj, SStr, Opaque, Unsupported, PyRaise, arith, compare, sym_abs,
                      to_bool, to_z3_num, lift, mk_str, str_chars, And, Or, Not, Ite, simp)
 
-WS = (32, 9, 10, 11, 12, 13)      # ASCII whitespace (A-ASCII)
+WS = (9, 10, 11, 12, 13, 28, 29, 30, 31, 32)      # str.strip()/int() whitespace within ASCII (A-ASCII)
 
 
 def _B(name):
